@@ -143,3 +143,12 @@ Proof. intros [] n; reflexivity. Qed.
 Theorem C15_source_gdevice_cost : forall n g (s p : list R), List.length s = n -> List.length p = n ->
   GDevice_cost (A:=R) n g s p = gdev_cost g s p.
 Proof. exact gen_gdevice_cost. Qed.
+
+(* ---- CDevice2 (cdevice2.py) regenerated on every run (Gen/Functions.v): the preference object is an InnerSumFunction over the high/low curve
+        for ONE cumulative range and a RangesFunction of such objects, one per range, otherwise; cost = object(s) + sum(s*p).  An object's
+        methods are the regenerated methods of its class (functions.py).  IS the documented cost of the model, any carrier. ---- *)
+From DK.Model Require Import FnOps.
+From DK.Gen Require Import Functions.
+From DK.Proofs Require Import GenFunctions.
+Theorem C15_source_cdevice2_cost : forall {A} `{Num A} n pl ph (cbs : list (cbound A)) s p, CDevice2_cost n pl ph cbs s p = cdev2_cost pl ph cbs s p.
+Proof. intros A H n pl ph cbs s p. apply gen_cdevice2_cost. Qed.
